@@ -47,7 +47,7 @@ fn generate(rng: &mut Rng) -> C16Sc {
     // deployments behind a load balancer: every client (the victim too) arrives from the same one or two peers
     let lb_mode = proxy.is_some() && rng.chance(1, 2);
     // a crowd that misbehaves in the same way (rather than a mix)
-    let same_kind = if rng.chance(1, 3) { Some(rng.below(9)) } else { None };
+    let same_kind = if rng.chance(1, 3) { Some(rng.below(10)) } else { None };
     // who the victim is (hostile clients may claim to be that player)
     let victim_name = "Victim".to_string();
     let victim_uuid = format!("{:032x}", (u128::from(rng.next_u64()) << 64) | u128::from(rng.next_u64()));
@@ -67,7 +67,7 @@ fn generate(rng: &mut Rng) -> C16Sc {
         with_header(rng, &mut spec, proxy, &src);
         let plen = spec.preamble.as_ref().map(|p| p.len() as u64).unwrap_or(0);
         let mut wplan = vec![];
-        let kind = match same_kind.unwrap_or_else(|| rng.below(9)) {
+        let kind = match same_kind.unwrap_or_else(|| rng.below(10)) {
             0 if plen > 0 => {
                 // nothing at all: stalls before the header
                 spec.preamble = None;
@@ -110,6 +110,17 @@ fn generate(rng: &mut Rng) -> C16Sc {
                 }
                 wplan.push(WRule::Stall);
                 "never_reads"
+            }
+            9 => {
+                // speaks nonsense: a frame of length zero, an endless length prefix, random bytes - then stays
+                let junk: Vec<u8> = match rng.below(4) {
+                    0 => vec![0x00],
+                    1 => vec![0xff; 5],
+                    2 => vec![0x01, 0x7f, 0x00, 0x00],
+                    _ => rng.bytes(40),
+                };
+                spec.script = Some(vec![crate::client::Step::RawBytes { bytes: junk }]);
+                "speaks_nonsense"
             }
             8 => {
                 // claims to be the victim (same name and UUID in Login Start) and then goes quiet
